@@ -1,7 +1,7 @@
 (* C18 -- Build output is logged completely, once, and under the right
    target.  Part (a): structured records survive formatting and re-parsing. *)
 From Coq Require Import ZArith List.
-From Redo Require Import Base.Bytes LogRec.Meta LogRec.MetaProofs LogRec.Assemble LogRec.Catlog LogRec.CatlogProofs.
+From Redo Require Import Base.Bytes LogRec.Meta LogRec.MetaProofs LogRec.Assemble LogRec.Catlog LogRec.CatlogProofs LogRec.Resplit.
 
 (* every record a writer may produce (kind without ':' '@' newline, text
    without newline -- it MAY contain "@@ " or "@@REDO:" --, any i32 pid, any
@@ -140,4 +140,40 @@ Example C18b_example :
   run_log lookup rel true 5 (t :: nil) nil
   = (SOk, EvMeta k_do t :: EvText t (65 :: 10 :: nil)%N :: EvMeta k_do c :: EvMeta k_resumed t
           :: EvText t (66 :: 10 :: nil)%N :: EvTail t (122 :: 10 :: nil)%N :: nil).
+Proof. vm_compute. reflexivity. Qed.
+
+(* ---- a record that stands after a script's own unterminated text on the same
+   physical line (printf 'checking y... '; redo-ifchange y -- fix F64): the
+   viewer cuts such a line in two.  For EVERY line: it is left alone, or cut so
+   that nothing is lost -- the text before the first record prefix becomes a
+   plain line of its own (so it is shown under its own target by the theorems
+   above, which hold for the lines after cutting) and the rest is a record. *)
+Theorem C18b_text_then_record_line : forall l,
+  resplit1 l = (l :: nil) \/
+  exists a b, resplit1 l = ((a ++ newline :: nil) :: b :: nil) /\ l = a ++ b /\ a <> nil /\
+              is_plain (a ++ newline :: nil) = true /\ is_plain b = false.
+Proof. exact resplit1_cases. Qed.
+Check C18b_text_then_record_line : forall l,
+  resplit1 l = (l :: nil) \/
+  exists a b, resplit1 l = ((a ++ newline :: nil) :: b :: nil) /\ l = a ++ b /\ a <> nil /\
+              is_plain (a ++ newline :: nil) = true /\ is_plain b = false.
+Print Assumptions C18b_text_then_record_line.
+
+Theorem C18b_resplit_keeps_bytes : forall ls,
+  concat (map (filter (fun c => negb (N.eqb c newline))) (resplit ls))
+  = concat (map (filter (fun c => negb (N.eqb c newline))) ls).
+Proof. exact resplit_keeps_bytes. Qed.
+Print Assumptions C18b_resplit_keeps_bytes.
+
+(* non-vacuity: x prints "ck " without a newline and asks for y; y prints "HI".
+   y is followed, HI stands under "do y", the text of x is a line of x. *)
+Example C18b_text_then_record_example :
+  let x := (120 :: nil)%N in let y := (121 :: nil)%N in
+  let rec_do := format {| kind := k_do; pid := 7%Z; ts := 15000%N; text := y |} in
+  let logx := ((99 :: 107 :: 32 :: nil) ++ rec_do ++ (10 :: 111 :: 107 :: 10 :: nil))%N in
+  let lookup := fun n => if bytes_eqb n x then KLog logx else if bytes_eqb n y then KLog (72 :: 73 :: 10 :: nil)%N else KUnknown in
+  let rel := fun (_ : bytes) (t : bytes) => t in
+  run_log lookup rel false 5 (x :: nil) nil
+  = (SOk, EvMeta k_do x :: EvText x (99 :: 107 :: 10 :: nil)%N :: EvMeta k_do y :: EvText y (72 :: 73 :: 10 :: nil)%N
+          :: EvMeta k_resumed x :: EvText x (111 :: 107 :: 10 :: nil)%N :: nil).
 Proof. vm_compute. reflexivity. Qed.
